@@ -118,6 +118,8 @@ class FnTranslator(ExprMixin, CallMixin, StmtMixin, EffectMixin):
         self.self_aliases = set()
         self.erased_attrs = set()
         self.assume_false = set()
+        self.erased_locals = set()      # local variables holding display texts (specs: erased_locals)
+        self.loop_falls = []            # continuations "end of this iteration" of the enclosing for loops
         self.current_method = None
         self.recursive = False
         self.returns = []
@@ -211,6 +213,7 @@ def translate_function(reg, fn, node, cls=None, declared_ret=None):
             tr.self_aliases = set(getattr(fn, "self_aliases", ()))
             tr.erased_attrs = set(getattr(fn, "erased_attrs", ()))
         tr.assume_false = set(getattr(fn, "assume_false", ()))
+        tr.erased_locals = set(getattr(fn, "erased_locals", ()))
         for p, t in fn.params:
             env[p] = (("()" if isinstance(t, (TErased, TEffectClass)) else p), t)
         is_gen = any(isinstance(n, (ast.Yield, ast.YieldFrom)) for n in ast.walk(node))
@@ -429,6 +432,7 @@ def run_specs(specs):
             fn.cls = None
             fn.prop = item.get("property")
             fn.assume_false = item.get("assume_false", [])
+            fn.erased_locals = item.get("erased_locals", [])
             node = None
             if tree is not None:
                 for n in tree.body:
